@@ -211,10 +211,16 @@ class Namer:
                 st = t
         self.self_ty = st
         self.params = {}
+        self.param_adts = {}
         for i in range(1, inst["arg_count"] + 1):
             nm = inst["locals"][i].get("name")
             if nm:
                 self.params[nm] = self.rename.get(nm, nm)
+                t_ = F.types[inst["locals"][i]["ty"]]
+                if t_["k"] == "ref":
+                    t_ = F.types[t_["to"]]
+                if t_["k"] == "adt" and t_.get("krate") == "rand_distr" and nm != "self":
+                    self.param_adts[nm] = t_
 
     def field_path(self, t):
         """A place inside *self as a name: declared field names joined by '_', enum downcasts by their variant name
@@ -227,11 +233,16 @@ class Namer:
             elif str(cur[2]).startswith("downcast:"):
                 steps.append(("d", cur[2].split(":", 1)[1]))
             cur = cur[1]
-        if cur != ("var", "self") or self.self_ty is None:
+        root_name = None
+        if cur == ("var", "self") and self.self_ty is not None:
+            ty = self.self_ty
+        elif isinstance(cur, tuple) and cur and cur[0] == "var" and cur[1] in self.param_adts and steps:
+            ty = self.param_adts[cur[1]]
+            root_name = self.rename.get(cur[1], cur[1])
+        else:
             return None
-        ty = self.self_ty
         variant = 0
-        names = []
+        names = [root_name] if root_name else []
         for kind, x in reversed(steps):
             if ty is None or ty["k"] != "adt" or not ty["variants"]:
                 return None
@@ -424,6 +435,8 @@ def run_specs(chk, F, specs, floor_n):
             where = span_str(inst.get("span"))
             if spec["kind"] == "ctor":
                 build_ctor_jobs(chk, F, inst, spec, key, where, jobs, ctx)
+            elif spec["kind"] == "ts":
+                build_ts_jobs(chk, F, inst, spec, key, where, jobs, ctx)
             else:
                 build_alg_jobs(chk, F, inst, spec, key, where, jobs, ctx)
     chk.floor("sampler / constructor instances compared with their reference", nfun, floor_n)
@@ -436,7 +449,7 @@ def run_specs(chk, F, specs, floor_n):
     chk.evaluations += len(jobs)
     ndec = 0
     for key, c in sorted(ctx.items()):
-        ndec += judge(chk, key, c, res)
+        ndec += judge_ts(chk, key, c, res) if c["kind"] == "ts" else judge(chk, key, c, res)
     chk.floor("functions judged (decided, or explicitly reported as not decided)", ndec + sum(1 for u_ in chk.unproved if u_["rule"] in ("algorithm", "constructor")), floor_n)
 
 
@@ -675,6 +688,234 @@ def build_case(chk, F, inst, spec, key, where, jobs, ctx, summ, paths):
             jid = "%s|ret|%d" % (key, pi_)
             jobs.append({"id": jid, "symbols": spec["symbols"], "term": term, "accepted": rets, "relative": True})
             c["rets"][pi_] = (jid, term)
+
+
+def parse_goto(outcome):
+    """'goto NODE {a: expr, b: expr}' -> (NODE, {a: expr, ..})"""
+    m_ = re.match(r"goto\s+(\w+)\s*(\{(.*)\})?\s*$", outcome)
+    node = m_.group(1)
+    upd = {}
+    body = m_.group(3) or ""
+    depth, cur, parts = 0, "", []
+    for ch in body:
+        if ch in "([":
+            depth += 1
+        elif ch in ")]":
+            depth -= 1
+        if ch == "," and depth == 0:
+            parts.append(cur)
+            cur = ""
+        else:
+            cur += ch
+    if cur.strip():
+        parts.append(cur)
+    for part in parts:
+        k_, v_ = part.split(":", 1)
+        upd[k_.strip()] = v_.strip()
+    return node, upd
+
+
+def ts_eval(lists, nodes, start, assign, let):
+    """First-match evaluation from list `start`; gotos into non-cut lists are followed, a goto into a cut node ends the segment."""
+    name = start
+    first = True
+    for _ in range(30):
+        for a_i, outcome in lists[name]:
+            if a_i is None or assign[a_i]:
+                if outcome.startswith("return "):
+                    return ("return", frozenset(subst_let(alt.strip(), let) for alt in outcome[len("return "):].split(" || ")))
+                node, upd = parse_goto(outcome)
+                if node in nodes:
+                    return ("cut", node, {k_: subst_let(v_, let) for k_, v_ in upd.items()})
+                name = node
+                break
+        else:
+            return None
+        first = False
+    return None
+
+
+def build_ts_jobs(chk, F, inst, spec, key, where, jobs, ctx):
+    summ = algsum.summarize_ts(F, inst)
+    nodes = spec["nodes"]                     # ordered {name: [state variables]} — one per cut point, in block order
+    names = list(nodes)
+    c = {"kind": "ts", "spec": spec, "where": where, "summ": summ, "undecided": [], "atoms": {}, "rets": {}, "upds": {}, "problems": [], "let": spec.get("let", {})}
+    ctx[key] = c
+    if len(summ["cuts"]) != len(names):
+        c["problems"].append("the implementation has %d loop(s), the reference %d" % (len(summ["cuts"]) - 1, len(names) - 1))
+        return
+    cutname = dict(zip(summ["cuts"], names))
+    c["cutname"] = cutname
+    paths = [p for p in summ["paths"] if not _is_try_break(p) and not _contradictory(p)]
+    c["paths"] = paths
+    draws = collect_draws({"atoms": [summ["atoms"][i] for i in used_atoms(paths)],
+                           "paths": [{"outcome": ("return", tuple(p["outcome"][2].values())) if p["outcome"][0] == "goto" else p["outcome"], "lits": p["lits"]} for p in paths]})
+    nm = Namer(F, inst, spec, draws)
+    if nm.unnamed or nm.missing:
+        c["problems"].append("the draws differ from the reference: implementation draws %s, reference draws %s" % ([d[0] for d in draws], [k for k, _ in spec.get("draws", [])]))
+        return
+    let = c["let"]
+    c["spec_atoms"], c["lists"] = compile_rules(spec["rules"], let)
+    # all spec outcomes
+    rets, upd_forms = set(), {}
+    for lst in c["lists"].values():
+        for _, o in lst:
+            if o.startswith("return "):
+                rets |= {subst_let(alt.strip(), let) for alt in o[len("return "):].split(" || ")}
+            else:
+                node, upd = parse_goto(o)
+                if node in nodes:
+                    for v_ in nodes[node]:
+                        upd_forms.setdefault((node, v_), set()).add(subst_let(upd.get(v_, v_), let))
+    c["spec_rets"] = sorted(rets)
+    c["upd_forms"] = {k_: sorted(v_) for k_, v_ in upd_forms.items()}
+    for i in used_atoms(paths):
+        kind, a, b2, strict = summ["atoms"][i]
+        try:
+            if kind.startswith("call:"):
+                arg = nm.sym(a)
+                cands = [k for k, sa in enumerate(c["spec_atoms"]) if sa[0] == kind]
+                if not cands:
+                    c["problems"].append("the implementation tests %s(%s), the reference does not" % (kind[5:], arg))
+                    continue
+                jid = "%s|atom|%d" % (key, i)
+                jobs.append({"id": jid, "symbols": spec["symbols"], "term": arg, "accepted": [c["spec_atoms"][k][1] for k in cands], "relative": True})
+                c["atoms"][i] = (jid, "eq", "%s(%s)" % (kind[5:], arg), [(k, False) for k in cands])
+                continue
+            if kind == "flag":
+                name = nm.sym(a)
+                cands = [k for k, sa in enumerate(c["spec_atoms"]) if sa[0] == "flag" and sa[1] == name]
+                if cands:
+                    c["atoms"][i] = (None, kind, name, (cands[0], False))
+                else:
+                    c["problems"].append("the implementation branches on the flag `%s`, the reference does not" % name)
+                continue
+            sa_, sb_ = nm.sym(a), nm.sym(b2)
+        except NoForm as e:
+            c["undecided"].append("comparison %d: %s" % (i, e))
+            continue
+        want_kind = "eq" if kind == "eq" else "lt"
+        accepted, back = [], []
+        for k, (k2, xa, xb) in enumerate(c["spec_atoms"]):
+            if k2 != want_kind:
+                continue
+            accepted.append("(%s) - (%s)" % (xa, xb))
+            back.append((k, False))
+            accepted.append("(%s) - (%s)" % (xb, xa))
+            back.append((k, True))
+        jid = "%s|atom|%d" % (key, i)
+        jobs.append({"id": jid, "symbols": spec["symbols"], "term": "(%s) - (%s)" % (sa_, sb_), "accepted": accepted or ["0*0 + 123456789"], "relative": True})
+        c["atoms"][i] = (jid, kind, "(%s) - (%s)" % (sa_, sb_), back)
+    for pi_, p in enumerate(paths):
+        o = p["outcome"]
+        try:
+            if o[0] == "return":
+                jid = "%s|ret|%d" % (key, pi_)
+                jobs.append({"id": jid, "symbols": spec["symbols"], "term": nm.sym(o[1]), "accepted": c["spec_rets"] or ["0*0 + 123456789"], "relative": True})
+                c["rets"][pi_] = jid
+            elif o[0] == "goto":
+                node = cutname.get(o[1])
+                for v_ in nodes.get(node, []):
+                    term = nm.sym(o[2][v_]) if v_ in o[2] else v_
+                    forms = c["upd_forms"].get((node, v_), [v_])
+                    jid = "%s|upd|%d|%s" % (key, pi_, v_)
+                    jobs.append({"id": jid, "symbols": spec["symbols"], "term": term, "accepted": forms, "relative": True, "variant_of": 0})
+                    c["upds"][(pi_, v_)] = jid
+        except NoForm as e:
+            c["undecided"].append("outcome of path %d: %s" % (pi_, e))
+
+
+def judge_ts(chk, key, c, res):
+    spec = c["spec"]
+    name = spec["name"]
+    if c["problems"]:
+        chk.violation("algorithm", key, "%s: %s" % (name, c["problems"][0]), where=c["where"])
+        return 1
+    summ, paths, nodes, let = c["summ"], c["paths"], spec["nodes"], c["let"]
+    und = list(c["undecided"])
+    conds = [("flag " + a[1]) if a[0] == "flag" else ("%s(%s)" % (a[0][5:], a[1]) if a[0].startswith("call:") else "%s %s %s" % (a[1], "==" if a[0] == "eq" else "<", a[2])) for a in c["spec_atoms"]]
+    amap = {}
+    for i, (jid, kind, dterm, back) in c["atoms"].items():
+        if jid is None:
+            amap[i] = back
+            continue
+        v = res[jid]
+        if v["verdict"] == "equal":
+            amap[i] = back[v["form"]]
+        elif v["verdict"] == "different":
+            chk.violation("algorithm", key + ":test", "%s decides on `%s %s`, which is not a test of the reference algorithm %s (%s)"
+                          % (name, v.get("term"), "== 0" if kind == "eq" else "< 0", [x[:70] for x in conds], v["detail"][:160]), where=c["where"])
+            return 1
+        else:
+            und.append("comparison %d: %s" % (i, v["detail"]))
+    # outcome terms
+    rform, uform = {}, {}
+    for pi_, jid in c["rets"].items():
+        v = res[jid]
+        if v["verdict"] == "equal":
+            rform[pi_] = c["spec_rets"][v["form"]]
+        elif v["verdict"] == "different":
+            chk.violation("algorithm", key + ":value", "%s returns %s, the reference returns %s (%s)" % (name, v.get("term"), c["spec_rets"], v["detail"][:160]), where=c["where"])
+            return 1
+        else:
+            und.append("returned value: %s" % v["detail"])
+    for (pi_, v_), jid in c["upds"].items():
+        v = res[jid]
+        node = c["cutname"].get(paths[pi_]["outcome"][1])
+        forms = c["upd_forms"].get((node, v_), [v_])
+        if v["verdict"] == "equal":
+            uform[(pi_, v_)] = {forms[k] for k in (v.get("forms") or [v["form"]])}
+        elif v["verdict"] == "different":
+            chk.violation("algorithm", key + ":update", "%s: on the way to `%s` the variable `%s` becomes %s, the reference has %s (%s)" % (name, node, v_, v.get("term"), forms, v["detail"][:160]), where=c["where"])
+            return 1
+        else:
+            und.append("update of %s: %s" % (v_, v["detail"]))
+    if any(p.get("opaque") for p in paths):
+        und.append("a branch of the implementation is not a comparison the analysis understands")
+    if und:
+        chk.unproved_note("algorithm", key, "not decided: " + und[0])
+        return 0
+    nsa = len(c["spec_atoms"])
+    nseg = 0
+    for cut, node in c["cutname"].items():
+        segs = [(pi_, p) for pi_, p in enumerate(paths) if p.get("start") == cut]
+        for assign in itertools.product((False, True), repeat=nsa):
+            so = ts_eval(c["lists"], nodes, node, assign, let)
+            hits = []
+            for pi_, p in segs:
+                okp = True
+                for lit in p["lits"]:
+                    if lit is None or lit[0] == "variant" or lit[0] not in amap:
+                        continue
+                    ia, truth = lit
+                    sa, swapped = amap[ia]
+                    kind = summ["atoms"][ia][0]
+                    val = assign[sa]
+                    holds = val if (kind in ("eq", "flag") or kind.startswith("call:") or not swapped) else not val
+                    if holds != truth:
+                        okp = False
+                        break
+                if okp:
+                    hits.append(pi_)
+            desc = "; ".join("%s: %s" % (cd[:50], "true" if a_ else "false") for cd, a_ in zip(conds, assign))
+            for pi_ in hits:
+                o = paths[pi_]["outcome"]
+                same = False
+                if so is None:
+                    same = False
+                elif o[0] == "return" and so[0] == "return":
+                    same = rform.get(pi_) in so[1]
+                elif o[0] == "goto" and so[0] == "cut":
+                    tgt = c["cutname"].get(o[1])
+                    same = tgt == so[1] and all(subst_let(so[2].get(v_, v_), let) in uform.get((pi_, v_), set()) for v_ in nodes[tgt])
+                if not same:
+                    chk.violation("algorithm", key + ":decision", "%s, at `%s`: when %s the reference gives `%s`, the implementation `%s`" % (
+                        name, node, desc or "(no test)", so, (o[0], c["cutname"].get(o[1]) if o[0] == "goto" else rform.get(pi_))), where=c["where"])
+                    return 1
+            nseg += len(hits)
+    chk.ok("algorithm", "%s: %d cut point(s), %d comparison(s) matched, %d segment(s): same successor, same updates of the state variables, same returned terms on every assignment"
+           % (key, len(c["cutname"]), len(amap), len(paths)), nontrivial=True)
+    return 1
 
 
 def judge(chk, key, c, res):
